@@ -100,6 +100,11 @@ def main():
             needs_file = f"{d}/needs_{v}.txt"
             if os.path.exists(needs_file):
                 NEEDS[sid] = open(needs_file).read().strip()
+            elif os.path.exists(f"{d}/notes.md"):
+                lines = [l.split("NEEDS:", 1)[1].strip(" *`") for l in open(f"{d}/notes.md") if "NEEDS:" in l]
+                k = "AB".index(v)
+                if len(lines) > k:
+                    NEEDS[sid] = lines[k]
             meta = {
                 "id": sid,
                 "breaks_property": prop,
